@@ -20,20 +20,20 @@ Qed.
     the handler's result and error text of that delivery *)
 Theorem reply_end_to_end dec enc c stream ls r :
   (forall x p, enc x = Some p -> dec p = Some x) ->
-  In r (got (lrun dec c (linit stream) ls)) ->
+  In r (got (lrun (unm_json dec) c (linit stream) ls)) ->
   is_final r = true \/
-  exists n, In n stream /\ n_op n = opid c /\ r = reply_of dec n
+  exists n, In n stream /\ n_op n = opid c /\ r = reply_of (unm_json dec) n
     /\ forall pc i, In (PPublish n) (fst (on_processed enc pc i)) ->
          r = ROwn (p_res i) (p_err i) (p_nid i) /\ p_op i = opid c.
 Proof.
-  intros Hrt H. destruct (got_only_own dec c stream ls r H) as [Hf|[n [H1 [H2 H3]]]]; [now left|right].
+  intros Hrt H. destruct (got_only_own (unm_json dec) c stream ls r H) as [Hf|[n [H1 [H2 H3]]]]; [now left|right].
   exists n. repeat split; auto.
   - rewrite H3. now apply (reply_roundtrip enc dec pc i n Hrt).
   - destruct (reply_content enc pc i n H0) as [Ho _]. congruence.
 Qed.
 
 (** ** D10: the code at the pinned commit *)
-Definition d10_dec : N -> option N := fun p => Some p.
+Definition d10_dec : notif -> option (N * option N) := unm_json (fun p => Some p).
 Definition d10_cfg (fx : bool) : cfg := Cfg fx 7 true true.
 Definition d10_stream : list notif := [Notif 1 7 1 false 0; Notif 2 7 2 false 0].
 (** two replies; the caller reads the first, the second fills the buffer, the caller cancels *)
